@@ -14,6 +14,9 @@ Proof. reflexivity. Qed.
 Lemma stop_iteration_is_stop : call_predicate RRaiseStopIteration = call_predicate (RRaise CStop).
 Proof. reflexivity. Qed.
 
+Lemma ids_cons' x xs : ids (x :: xs) = ids_t x ++ ids xs.
+Proof. rewrite ids_cons, ids_t_unfold. reflexivity. Qed.
+
 (* ------------------------------------------------------------------ *)
 (* sub-forests                                                          *)
 Lemma sublist_refl {X} (l : list X) : sublist l l.
@@ -195,6 +198,81 @@ Theorem upd_at_ids n g f t : NoDup (ids f) -> In t (pre_f f) -> rid t = n ->
   forall m, In m (ids (map (upd_at n g) f)) <-> (In m (ids f) /\ ~ In m (ids (rch t))) \/ In m (ids (g (rch t))).
 Proof.
   intros ND Ht Hn. apply upd_ids_f; try assumption. apply Forall_forall. intros t0 _. apply upd_ids_t.
+Qed.
+
+(* ... and conversely: a kept node keeps its place (top level, or below its
+   original parent), given unique identities *)
+Lemma child_in_ids l p c : child_in l p c -> In c (ids l).
+Proof.
+  intros [q [Hq [_ Hc]]]. apply in_map_iff in Hc. destruct Hc as [t [E Ht]]. subst c.
+  unfold ids. apply in_map. exact (pre_f_child_closed l q t Hq Ht).
+Qed.
+
+Lemma emb_ids_incl a b : emb a b -> incl (ids a) (ids b).
+Proof. intros E m Hm. exact (sublist_in _ _ m (emb_ids a b E) Hm). Qed.
+
+Lemma emb_top_conv a b : emb a b -> NoDup (ids b) -> forall c, In c (map rid b) -> In c (ids a) -> In c (map rid a).
+Proof.
+  induction 1 as [b|a t b E IH|id i ch' ch a b E1 IH1 E2 IH2]; intros ND c Hb Ha.
+  - destruct Ha.
+  - rewrite ids_cons' in ND. cbn [map] in Hb. destruct Hb as [Hb|Hb].
+    + exfalso. apply (NoDup_app_disj _ _ c ND); [rewrite ids_t_unfold; left; exact Hb|exact (emb_ids_incl a b E c Ha)].
+    + exact (IH (NoDup_app_r _ _ ND) c Hb Ha).
+  - cbn [map rid]. cbn [map rid] in Hb. destruct Hb as [Hb|Hb]; [left; exact Hb|right].
+    rewrite ids_cons' in Ha, ND. apply in_app_or in Ha. destruct Ha as [Ha|Ha].
+    + exfalso. apply (NoDup_app_disj _ _ c ND); [|apply incl_top_ids, Hb].
+      rewrite ids_t_unfold in *. cbn [rid rch] in *. destruct Ha as [Ha|Ha]; [left; exact Ha|right; exact (emb_ids_incl _ _ E1 c Ha)].
+    + exact (IH2 (NoDup_app_r _ _ ND) c Hb Ha).
+Qed.
+
+Lemma child_in_cons x xs p c : child_in (x :: xs) p c <-> child_in [x] p c \/ child_in xs p c.
+Proof.
+  unfold child_in. split.
+  - intros [q [Hq H]]. cbn [flat_map] in Hq. apply in_app_or in Hq. destruct Hq as [Hq|Hq].
+    + left. exists q. split; [cbn [flat_map]; rewrite app_nil_r; exact Hq|exact H].
+    + right. exists q. split; assumption.
+  - intros [[q [Hq H]]|[q [Hq H]]]; exists q; (split; [|exact H]); cbn [flat_map]; apply in_or_app.
+    + left. cbn [flat_map] in Hq. rewrite app_nil_r in Hq. exact Hq.
+    + right. exact Hq.
+Qed.
+
+Lemma child_in_node id i ch p c :
+  child_in [T id i ch] p c <-> (p = id /\ In c (map rid ch)) \/ child_in ch p c.
+Proof.
+  unfold child_in. cbn [flat_map pre]. rewrite app_nil_r. split.
+  - intros [q [[<-|Hq] [Hp Hc]]]; [left; cbn [rid rch] in *; split; [symmetry; exact Hp|exact Hc]|].
+    right. exists q. exact (conj Hq (conj Hp Hc)).
+  - intros [[Hp Hc]|[q [Hq H]]].
+    + exists (T id i ch). cbn [rid rch]. exact (conj (or_introl eq_refl) (conj (eq_sym Hp) Hc)).
+    + exists q. exact (conj (or_intror Hq) H).
+Qed.
+
+Lemma emb_child_conv a b : emb a b -> NoDup (ids b) -> forall p c, child_in b p c -> In c (ids a) -> child_in a p c.
+Proof.
+  induction 1 as [b|a t b E IH|id i ch' ch a b E1 IH1 E2 IH2]; intros ND p c Hb Ha.
+  - destruct Ha.
+  - rewrite ids_cons' in ND. apply child_in_cons in Hb. destruct Hb as [Hb|Hb].
+    + exfalso. apply (NoDup_app_disj _ _ c ND); [|exact (emb_ids_incl a b E c Ha)].
+      apply child_in_ids in Hb. rewrite ids_cons', ids_nil, app_nil_r in Hb. exact Hb.
+    + exact (IH (NoDup_app_r _ _ ND) p c Hb Ha).
+  - rewrite ids_cons' in ND, Ha. pose proof (NoDup_app_l _ _ ND) as NDt. pose proof (NoDup_app_r _ _ ND) as NDb.
+    rewrite ids_t_unfold in NDt, Ha. cbn [rid rch] in NDt, Ha. inversion NDt as [|? ? Hnot NDc]; subst.
+    assert (Dj : forall k, In k (id :: ids ch) -> In k (ids b) -> False).
+    { intros k. rewrite ids_t_unfold in ND. cbn [rid rch] in ND. exact (NoDup_app_disj _ _ k ND). }
+    apply child_in_cons. apply child_in_cons in Hb. destruct Hb as [Hb|Hb].
+    + left. apply child_in_node. apply child_in_node in Hb.
+      assert (Hc : In c (ids ch)).
+      { destruct Hb as [[_ Hb]|Hb]; [apply incl_top_ids, Hb|exact (child_in_ids _ _ _ Hb)]. }
+      assert (Ha' : In c (ids ch')).
+      { apply in_app_or in Ha. destruct Ha as [[Ha|Ha]|Ha]; [subst c; contradiction|exact Ha|].
+        exfalso. exact (Dj c (or_intror Hc) (emb_ids_incl _ _ E2 c Ha)). }
+      destruct Hb as [[Hp Hb]|Hb].
+      * left. split; [exact Hp|]. exact (emb_top_conv _ _ E1 NDc c Hb Ha').
+      * right. exact (IH1 NDc p c Hb Ha').
+    + right. assert (Hc : In c (ids b)) by (apply child_in_ids in Hb; exact Hb).
+      apply (IH2 NDb p c Hb). apply in_app_or in Ha. destruct Ha as [[Ha|Ha]|Ha]; [| |exact Ha].
+      * exfalso. exact (Dj c (or_introl Ha) Hc).
+      * exfalso. exact (Dj c (or_intror (emb_ids_incl _ _ E1 c Ha)) Hc).
 Qed.
 
 Section P.
@@ -516,20 +594,53 @@ Proof.
   destruct (v id); try reflexivity; rewrite af_go; reflexivity.
 Qed.
 
+(* allocation indices of plain copies: consecutive, pre-order *)
+Lemma ids_t_length_pos t : length (ids_t t) = S (length (ids (rch t))).
+Proof. rewrite ids_t_unfold. reflexivity. Qed.
+
+Definition copy_ids_ok (t : rt) : Prop := forall nx,
+  ids_t (fst (copy_t t nx)) = seq nx (length (ids_t t)) /\ snd (copy_t t nx) = nx + length (ids_t t).
+
+Lemma copy_f_ids_of l : Forall copy_ids_ok l -> forall nx,
+  ids (fst (copy_f l nx)) = seq nx (length (ids l)) /\ snd (copy_f l nx) = nx + length (ids l).
+Proof.
+  induction 1 as [|x l Hx _ IH]; intros nx.
+  - cbn. split; [reflexivity|lia].
+  - rewrite copy_f_cons. cbn [fst snd]. destruct (Hx nx) as [E1 E2]. destruct (IH (snd (copy_t x nx))) as [I1 I2].
+    rewrite !ids_cons', !app_length, I1, I2, E1, E2, seq_app. split; [reflexivity|lia].
+Qed.
+
+Lemma copy_t_ids : forall t, copy_ids_ok t.
+Proof.
+  induction t as [id i ch IH] using rt_ind'. intros nx. rewrite copy_t_unfold. cbn [fst snd].
+  destruct (copy_f_ids_of ch IH (S nx)) as [E1 E2]. rewrite !ids_t_unfold. cbn [rid rch length seq].
+  rewrite E1, E2. split; [reflexivity|lia].
+Qed.
+
+Lemma copy_f_ids l nx :
+  ids (fst (copy_f l nx)) = seq nx (length (ids l)) /\ snd (copy_f l nx) = nx + length (ids l).
+Proof. apply copy_f_ids_of. apply Forall_forall. intros t _. apply copy_t_ids. Qed.
+
 (* what one call of the loop body does to the open spine: nothing, or it
    materialises the pending parents and hangs one finished branch below the
-   innermost of them *)
+   innermost of them; the new nodes get the next allocation indices in
+   pre-order *)
 Definition af_ok (t : rt) : Prop := forall stk nx s, exists c' nx',
   af_node v t (stk, nx, s) =
     (match c' with None => stk | Some c => add_top c (fst (materialise stk nx)) end, nx', snd (F_t v s t))
   /\ option_map erase c' = option_map (fun x => erase (dbl_t v x)) (fst (F_t v s t))
-  /\ (c' = None -> nx' = nx).
+  /\ match c' with
+     | None => nx' = nx
+     | Some c => ids_t c = seq (snd (materialise stk nx)) (length (ids_t c)) /\
+                 nx' = snd (materialise stk nx) + length (ids_t c)
+     end.
 
 Lemma af_children_ok l : Forall af_ok l -> forall stk nx s, exists cs' nx',
   af_children v l (stk, nx, s) =
     (match cs' with [] => stk | _ => add_tops cs' (fst (materialise stk nx)) end, nx', snd (F_f v s l))
   /\ map erase cs' = map (fun x => erase (dbl_t v x)) (fst (F_f v s l))
-  /\ (cs' = [] -> nx' = nx).
+  /\ ids cs' = seq (snd (materialise stk nx)) (length (ids cs'))
+  /\ nx' = match cs' with [] => nx | _ => snd (materialise stk nx) + length (ids cs') end.
 Proof.
   induction 1 as [|x l Hx _ IH]; intros stk nx s.
   - exists [], nx. cbn. auto.
@@ -537,14 +648,17 @@ Proof.
     rewrite F_f_cons. cbn [fst snd].
     destruct c' as [c|].
     + destruct (fst (F_t v s x)) as [x0|]; [|discriminate E2]. cbn [option_map] in E2. injection E2 as E2.
-      set (M := fst (materialise stk nx)).
+      destruct E3 as [E3 E4].
+      set (M := fst (materialise stk nx)) in *. set (k := snd (materialise stk nx)) in *.
       assert (HM : all_ex (add_top c M)) by (apply add_top_ex, mat_is_ex).
-      destruct (IH (add_top c M) nx1 (snd (F_t v s x))) as [cs' [nx2 [I1 [I2 I3]]]].
-      exists (c :: cs'), nx2. rewrite I1. refine (conj _ (conj _ _)).
-      * rewrite (mat_all_ex _ HM). cbn [fst]. rewrite add_tops_cons. destruct cs'; reflexivity.
+      destruct (IH (add_top c M) nx1 (snd (F_t v s x))) as [cs' [nx2 [I1 [I2 [I3 I4]]]]].
+      rewrite (mat_all_ex _ HM) in I1, I3, I4. cbn [fst snd] in I1, I3, I4.
+      exists (c :: cs'), nx2. rewrite I1. refine (conj _ (conj _ (conj _ _))).
+      * rewrite add_tops_cons. destruct cs'; reflexivity.
       * cbn [ocons map]. rewrite E2, I2. reflexivity.
-      * discriminate.
-    + destruct (fst (F_t v s x)) as [x0|]; [discriminate E2|]. rewrite (E3 eq_refl).
+      * rewrite ids_cons', app_length, seq_app, <- E3, <- E4, <- I3. reflexivity.
+      * rewrite I4, ids_cons', app_length. destruct cs'; [cbn [ids flat_map map length]|]; lia.
+    + destruct (fst (F_t v s x)) as [x0|]; [discriminate E2|]. subst nx1.
       destruct (IH stk nx (snd (F_t v s x))) as [cs' [nx2 [I1 [I2 I3]]]].
       exists cs', nx2. rewrite I1. cbn [ocons]. auto.
 Qed.
@@ -565,35 +679,45 @@ Proof.
   - (* True *)
     cbn [add_top].
     assert (H0 : all_ex (Existing k i [T (S k) i []] :: M)) by (constructor; [exact Logic.I|exact HM]).
-    destruct (af_children_ok ch IH (Existing k i [T (S k) i []] :: M) (S (S k)) false) as [cs' [nx' [E1 [E2 _]]]].
+    destruct (af_children_ok ch IH (Existing k i [T (S k) i []] :: M) (S (S k)) false) as [cs' [nx' [E1 [E2 [E3 E4]]]]].
+    rewrite (mat_all_ex _ H0) in E3, E4. cbn [snd] in E3, E4.
     rewrite E1. cbn [fst snd]. rewrite (match_add_tops _ _ _ H0), add_tops_ex. cbn [pop].
-    exists (Some (T k i (T (S k) i [] :: cs'))), nx'. refine (conj _ (conj _ _)).
+    exists (Some (T k i (T (S k) i [] :: cs'))), nx'. refine (conj _ (conj _ (conj _ _))).
     + rewrite rev_app_distr, rev_involutive. reflexivity.
     + cbn [option_map erase dbl_t map]. rewrite Ev. cbn [erase map]. rewrite E2, map_map. reflexivity.
-    + discriminate.
+    + rewrite ids_t_unfold. cbn [rid rch]. rewrite ids_cons'. rewrite ids_t_unfold. cbn [rid rch].
+      rewrite ids_nil. cbn [app length seq]. rewrite <- E3. reflexivity.
+    + rewrite E4, ids_t_unfold. cbn [rid rch]. rewrite ids_cons', ids_t_unfold. cbn [rid rch]. rewrite ids_nil. cbn [app length].
+      destruct cs'; [cbn [ids flat_map map length]|]; lia.
   - (* False *)
-    destruct (af_children_ok ch IH (Virtual (T id i ch) :: stk) nx false) as [cs' [nx' [E1 [E2 E3]]]].
+    destruct (af_children_ok ch IH (Virtual (T id i ch) :: stk) nx false) as [cs' [nx' [E1 [E2 [E3 E4]]]]].
+    rewrite mat_virtual, Em in E3, E4. cbn [fst snd] in E3, E4.
     rewrite E1. cbn [fst snd]. destruct cs' as [|c cs'].
     + exists None, nx'. cbn [pop].
       destruct (fst (F_f v false ch)); [|discriminate E2]. cbn. auto.
     + rewrite mat_virtual, Em. cbn [fst snd rinfo]. rewrite add_tops_ex. cbn [pop].
       exists (Some (T k i (c :: cs'))), nx'.
       destruct (fst (F_f v false ch)) as [|y ys] eqn:Ek; [discriminate E2|]. cbn [is_nil fst].
-      refine (conj _ (conj _ _)).
+      refine (conj _ (conj _ (conj _ _))).
       * rewrite app_nil_r, rev_involutive. reflexivity.
       * cbn [option_map erase dbl_t]. rewrite Ev. cbn [erase]. rewrite E2, map_map. reflexivity.
-      * discriminate.
+      * rewrite ids_t_unfold. cbn [rid rch length seq]. rewrite <- E3. reflexivity.
+      * rewrite E4, ids_t_unfold. cbn [rid rch length]. lia.
   - (* Skip *)
     exists None, nx. cbn. auto.
   - (* SkipBranch(and_self=False) *)
     cbn [add_top pop rev].
-    exists (Some (T k i [T (S k) i []])), (S (S k)). refine (conj eq_refl (conj _ _)); [|discriminate].
-    cbn [option_map erase dbl_t map fst]. rewrite Ev. reflexivity.
+    exists (Some (T k i [T (S k) i []])), (S (S k)). refine (conj eq_refl (conj _ (conj _ _))).
+    + cbn [option_map erase dbl_t map fst]. rewrite Ev. reflexivity.
+    + reflexivity.
+    + cbn. lia.
   - (* SelectBranch *)
-    rewrite add_tops_ex. cbn [pop].
-    exists (Some (T k i (fst (copy_f ch (S k))))), (snd (copy_f ch (S k))). refine (conj _ (conj _ _)); [| |discriminate].
+    rewrite add_tops_ex. cbn [pop]. destruct (copy_f_ids ch (S k)) as [C1 C2].
+    exists (Some (T k i (fst (copy_f ch (S k))))), (snd (copy_f ch (S k))). refine (conj _ (conj _ (conj _ _))).
     + rewrite app_nil_r, rev_involutive. reflexivity.
     + cbn [option_map erase dbl_t fst]. rewrite Ev. cbn [erase]. rewrite copy_f_erase. reflexivity.
+    + rewrite ids_t_unfold. cbn [rid rch length seq]. rewrite C1, seq_length. reflexivity.
+    + rewrite C2, ids_t_unfold. cbn [rid rch length]. rewrite C1, seq_length. lia.
   - (* Stop *)
     exists None, nx. cbn. auto.
 Qed.
@@ -607,6 +731,29 @@ Proof.
   destruct (af_children_ok f H [root] nx false) as [cs' [nx' [E1 [E2 _]]]].
   rewrite E1. cbn [fst snd]. rewrite (match_add_tops _ _ _ H0). unfold root. rewrite add_tops_ex.
   cbn [fst]. rewrite app_nil_r, rev_involutive, map_map. exact E2.
+Qed.
+
+(* the nodes of the copy are new: consecutive allocation indices in pre-order,
+   hence every node of the copy exactly once *)
+Theorem add_filtered_ids f nx :
+  ids (fst (add_filtered v f nx)) = seq nx (length (ids (fst (add_filtered v f nx)))) /\
+  snd (add_filtered v f nx) = nx + length (ids (fst (add_filtered v f nx))).
+Proof.
+  unfold add_filtered.
+  assert (H : Forall af_ok f) by (apply Forall_forall; intros t _; apply af_node_ok).
+  set (root := Existing 0 (I 0 0 0 false [] (DInt 0) None []) []).
+  assert (H0 : all_ex [root]) by (constructor; [exact Logic.I|constructor]).
+  destruct (af_children_ok f H [root] nx false) as [cs' [nx' [E1 [_ [E3 E4]]]]].
+  rewrite (mat_all_ex _ H0) in E3, E4. cbn [snd] in E3, E4.
+  rewrite E1. cbn [fst snd]. rewrite (match_add_tops _ _ _ H0). unfold root. rewrite add_tops_ex.
+  cbn [fst snd]. rewrite app_nil_r, rev_involutive. split; [exact E3|].
+  rewrite E4. destruct cs'; [cbn; lia|reflexivity].
+Qed.
+
+Theorem filtered_fresh f : NoDup (ids (filtered v f)) /\ ids (filtered v f) = seq 1 (length (ids (filtered v f))).
+Proof.
+  unfold filtered. destruct (add_filtered_ids f 1) as [E _]. split; [|exact E].
+  rewrite E. apply seq_NoDup.
 Qed.
 
 Theorem filtered_is_dbl_F f : same_modulo_ids (filtered v f) (dbl v (F v f)).
@@ -659,9 +806,6 @@ Proof. unfold reach. cbn [flat_map]. apply app_nil_r. Qed.
 
 Lemma pre_f_single x : pre_f [x] = pre x.
 Proof. cbn [flat_map]. apply app_nil_r. Qed.
-
-Lemma ids_cons' x xs : ids (x :: xs) = ids_t x ++ ids xs.
-Proof. rewrite ids_cons, ids_t_unfold. reflexivity. Qed.
 
 Lemma reach_f_incl_of l : Forall (fun t => incl (reach_t v t) (ids_t t)) l -> incl (reach v l) (ids l).
 Proof.
@@ -926,6 +1070,107 @@ Proof.
 Qed.
 
 (* ------------------------------------------------------------------ *)
+(* [reach] and [visited], declaratively                                 *)
+(* reached: no proper ancestor answered anything but True / False(None) *)
+Definition all_open (l : forest) (t : rt) : Prop :=
+  forall p, In p (pre_f l) -> In t (pre_f (rch p)) -> opens (v (rid p)) = true.
+
+Definition RD (l : forest) : Prop :=
+  forall n, In n (reach v l) <-> exists t, In t (pre_f l) /\ rid t = n /\ all_open l t.
+
+Lemma RD_cons x xs : NoDup (ids (x :: xs)) -> RD [x] -> RD xs -> RD (x :: xs).
+Proof.
+  intros ND H1 H2 n. rewrite reach_cons, in_app_iff, <- reach_single, (H1 n), (H2 n). split.
+  - intros [[t [Ht [Hn Ho]]]|[t [Ht [Hn Ho]]]]; exists t.
+    + rewrite pre_f_single in Ht. refine (conj _ (conj Hn _)); [cbn [flat_map]; apply in_or_app; left; exact Ht|].
+      intros p Hp Htp. cbn [flat_map] in Hp. apply in_app_or in Hp. destruct Hp as [Hp|Hp].
+      * apply Ho; [rewrite pre_f_single; exact Hp|exact Htp].
+      * exfalso. apply (disj_ids x xs (rid t) ND); [apply in_ids_t, Ht|apply in_ids; exact (desc_closed xs p t Hp Htp)].
+    + refine (conj _ (conj Hn _)); [cbn [flat_map]; apply in_or_app; right; exact Ht|].
+      intros p Hp Htp. cbn [flat_map] in Hp. apply in_app_or in Hp. destruct Hp as [Hp|Hp].
+      * exfalso. apply (disj_ids x xs (rid t) ND); [|apply in_ids, Ht].
+        apply in_ids_t. rewrite <- pre_f_single. apply (desc_closed [x] p t); [rewrite pre_f_single; exact Hp|exact Htp].
+      * apply Ho; assumption.
+  - intros [t [Ht [Hn Ho]]]. cbn [flat_map] in Ht. apply in_app_or in Ht. destruct Ht as [Ht|Ht]; [left|right]; exists t.
+    + rewrite pre_f_single. refine (conj Ht (conj Hn _)). intros p Hp Htp. apply Ho; [|exact Htp].
+      rewrite pre_f_single in Hp. cbn [flat_map]. apply in_or_app. left. exact Hp.
+    + refine (conj Ht (conj Hn _)). intros p Hp Htp. apply Ho; [|exact Htp].
+      cbn [flat_map]. apply in_or_app. right. exact Hp.
+Qed.
+
+Lemma RD_node id i ch : NoDup (id :: ids ch) -> RD ch -> RD [T id i ch].
+Proof.
+  intros ND Hc n. inversion ND as [|? ? Hnot NDc]; subst.
+  assert (N1 : forall t, In t (pre_f ch) -> rid t <> id).
+  { intros t Ht E. apply Hnot. rewrite <- E. apply in_ids, Ht. }
+  rewrite reach_single, reach_t_unfold, pre_f_single. unfold all_open. rewrite pre_f_single. split.
+  - intros [<-|Hn].
+    + exists (T id i ch). refine (conj (pre_in_self _) (conj eq_refl _)).
+      intros p Hp Htp. exfalso. rewrite pre_unfold in Hp. cbn [rch] in Hp. destruct Hp as [<-|Hp].
+      * cbn [rch] in Htp. exact (N1 _ Htp eq_refl).
+      * exact (N1 _ (desc_closed ch p _ Hp Htp) eq_refl).
+    + destruct (opens (v id)) eqn:Eo; [|destruct Hn]. apply (Hc n) in Hn. destruct Hn as [t [Ht [Hn Ho]]].
+      exists t. rewrite pre_unfold. cbn [rch]. refine (conj (or_intror Ht) (conj Hn _)).
+      intros p [<-|Hp] Htp; [exact Eo|apply Ho; assumption].
+  - intros [t [Ht [Hn Ho]]]. rewrite pre_unfold in Ht. cbn [rch] in Ht. destruct Ht as [<-|Ht]; [left; exact Hn|right].
+    assert (Eo : opens (v id) = true) by (apply (Ho (T id i ch) (pre_in_self _)); exact Ht).
+    rewrite Eo. apply (Hc n). exists t. refine (conj Ht (conj Hn _)).
+    intros p Hp Htp. apply Ho; [|exact Htp]. rewrite pre_unfold. right. exact Hp.
+Qed.
+
+Lemma RD_forest_of l : Forall (fun t => NoDup (ids_t t) -> RD [t]) l -> NoDup (ids l) -> RD l.
+Proof.
+  induction 1 as [|x l Hx _ IH]; intros ND.
+  - intros n. cbn. split; [intros []|intros [t [[] _]]].
+  - destruct (NoDup_ids_cons _ _ ND) as [NDx [NDl _]].
+    apply RD_cons; [exact ND|apply Hx, NDx|apply IH, NDl].
+Qed.
+
+Lemma RD_tree : forall t, NoDup (ids_t t) -> RD [t].
+Proof.
+  induction t as [id i ch IH] using rt_ind'. intros ND. rewrite ids_t_unfold in ND. cbn [rid rch] in ND.
+  apply RD_node; [exact ND|]. apply RD_forest_of; [exact IH|]. inversion ND; assumption.
+Qed.
+
+Theorem reach_decl f : NoDup (ids f) ->
+  forall n, In n (reach v f) <-> exists t, In t (pre_f f) /\ rid t = n /\ all_open f t.
+Proof. intros ND. apply RD_forest_of; [|exact ND]. apply Forall_forall. intros t _. apply RD_tree. Qed.
+
+(* the reached nodes are listed in pre-order *)
+Lemma reach_f_sublist_of l : Forall (fun t => sublist (reach_t v t) (ids_t t)) l -> sublist (reach v l) (ids l).
+Proof.
+  induction 1 as [|x l Hx _ IH]; [constructor|]. rewrite reach_cons, ids_cons'. apply sublist_app; assumption.
+Qed.
+
+Lemma reach_t_sublist : forall t, sublist (reach_t v t) (ids_t t).
+Proof.
+  induction t as [id i ch IH] using rt_ind'. rewrite reach_t_unfold, ids_t_unfold. cbn [rid rch]. apply sub_keep.
+  destruct (opens (v id)); [exact (reach_f_sublist_of ch IH)|constructor].
+Qed.
+
+Theorem reach_order f : sublist (reach v f) (ids f).
+Proof. apply reach_f_sublist_of. apply Forall_forall. intros t _. apply reach_t_sublist. Qed.
+
+(* visited: the part of that list before the first stop answer *)
+Lemma before_stop_spec l n :
+  In n (before_stop v l) <-> exists a b, l = a ++ n :: b /\ has_stop (a ++ [n]) = false.
+Proof.
+  split.
+  - induction l as [|x l IH]; cbn [before_stop]; [intros []|].
+    destruct (is_stop (v x)) eqn:Ex; [intros []|]. intros [<-|H].
+    + exists [], l. split; [reflexivity|]. unfold has_stop. cbn. rewrite Ex. reflexivity.
+    + destruct (IH H) as [a [b [E Hs]]]. exists (x :: a), b. split; [rewrite E; reflexivity|].
+      unfold has_stop in *. cbn [app existsb]. rewrite Ex. exact Hs.
+  - intros [a [b [E Hs]]]. subst l. rewrite has_stop_app in Hs. apply orb_false_iff in Hs. destruct Hs as [H1 H2].
+    rewrite before_stop_app, H1. apply in_or_app. right. cbn [before_stop].
+    unfold has_stop in H2. cbn in H2. rewrite orb_false_r in H2. rewrite H2. left. reflexivity.
+Qed.
+
+Theorem visited_decl f n :
+  In n (visited v f) <-> exists a b, reach v f = a ++ n :: b /\ has_stop (a ++ [n]) = false.
+Proof. apply before_stop_spec. Qed.
+
+(* ------------------------------------------------------------------ *)
 (* statements assembled for Properties/C08.v                           *)
 Theorem F_subforest f : emb (F v f) f /\ sublist (ids (F v f)) (ids f).
 Proof. exact (conj (F_emb f) (F_order f)). Qed.
@@ -938,6 +1183,15 @@ Proof.
   split.
   - exact (emb_node _ _ (F_emb f)).
   - intros p c. exact (emb_child _ _ p c (F_emb f)).
+Qed.
+
+Theorem F_places_kept f : NoDup (ids f) ->
+  (forall c, In c (map rid f) -> In c (ids (F v f)) -> In c (map rid (F v f))) /\
+  (forall p c, child_in f p c -> In c (ids (F v f)) -> child_in (F v f) p c).
+Proof.
+  intros ND. split.
+  - exact (emb_top_conv _ _ (F_emb f) ND).
+  - exact (emb_child_conv _ _ (F_emb f) ND).
 Qed.
 
 (* ------------------------------------------------------------------ *)
